@@ -39,6 +39,16 @@ func refTiffSearch(s []byte) (off int, bo utils.ByteOrder, ifd uint32, ok bool) 
 	return 0, 0, 0, false
 }
 
+// c12WantType: the header carries the type of the stream's first 24 bytes, or the caller's type (unknown here)
+func c12WantType(stream []byte) imagetype.ImageType {
+	if len(stream) >= 24 {
+		if t, err := imagetype.Buf(append([]byte{}, stream[:24]...)); err == nil {
+			return t
+		}
+	}
+	return imagetype.ImageUnknown
+}
+
 var c12Offsets = []uint32{8, 0x01020304, 0xFFFFFFFF, 0xFFFFFFFE, 0x80000000, 0, 0xFFFFF000}
 
 func c12Tail(hdr, off, tail int) []byte {
@@ -100,6 +110,8 @@ func c12Check(stream []byte, fs *failSet) {
 			fs.add("wrong-byte-order", fmt.Sprintf("%s want %v got %v", show(), bo, h.ByteOrder))
 		case h.FirstIfdOffset != ifd:
 			fs.add("wrong-first-ifd-offset", fmt.Sprintf("%s want %#x got %#x", show(), ifd, h.FirstIfdOffset))
+		case h.ImageType != c12WantType(stream):
+			fs.add("wrong-image-type", fmt.Sprintf("%s header at %d: image type %v, the first 24 bytes of the stream say %v", show(), off, h.ImageType, c12WantType(stream)))
 		default:
 			rest, _ := io.ReadAll(br)
 			if !bytes.Equal(rest, stream[off:]) {
